@@ -83,8 +83,10 @@ CLAIMED = {
         "the writer can produce is sorted and keeps the sentinel (wk_reachable, by induction over writer tasks). Hence, "
         "with no hypothesis about neighbouring keys, for every history of writer tasks: C02_kv_kinds_complete_reachable, "
         "C02_kv_authors_complete_reachable, C02_kv_authorkinds_complete_reachable, and at the level of a REQ filter "
-        "C02_kv_kinds_filter_complete (every stored event matching {kinds, since?, until?} under the strict NIP-01 reading "
-        "is delivered when the limit does not truncate). Also: execute_one_plan delivers every stored candidate passing the "
+        "C02_kv_kinds_filter_complete, C02_kv_authors_filter_complete, C02_kv_authorkinds_filter_complete (authors x kinds in "
+        "validated order give strictly descending match values) and C02_kv_ids_filter_complete (a filter naming ids is planned "
+        "over the primary keys whatever else it says): every stored event matching the filter under the strict NIP-01 reading "
+        "is delivered when the limit does not truncate. Also: execute_one_plan delivers every stored candidate passing the "
         "residual filter, never twice; strict matching implies the residual filter; on SQL every stored row strictly "
         "matching a well-formed filter satisfies its WHERE predicate (rows pairwise distinct). The classes where the "
         "current code is incomplete are Lean witnesses + known findings. Tie/search as C01, plus the oracle 'strict matches "
